@@ -31,3 +31,21 @@ func VerifC20Merge(spoc, raw []byte) string {
 	}
 	return r
 }
+
+// VerifC20GroupCycle parses config and calls checkGroupCycle for first vsys
+// of first device. Returns "no vsys" if there is none.
+func VerifC20GroupCycle(data []byte) string {
+	s := &State{}
+	c, err := s.ParseConfig(data, "router")
+	if err != nil {
+		return "parse: " + err.Error()
+	}
+	p := c.(*PanConfig)
+	if p.Devices == nil || len(p.Devices.Entries) == 0 ||
+		len(p.Devices.Entries[0].Vsys) == 0 {
+		return "no vsys"
+	}
+	v := p.Devices.Entries[0].Vsys[0]
+	rulesPairFrom(v, v).a.checkGroupCycle()
+	return "ok"
+}
